@@ -489,6 +489,21 @@ pub struct GenCfg {
     pub write_chance: usize,
     /// draw the universe from all 96 resources (8 types x 12 dynamic ids) instead of the classic 32
     pub extended_universe: bool,
+    /// probability (in 1/16) that a plan draws its running-time hints from a skewed distribution
+    /// (mostly VeryShort, now and then VeryLong): groups then fill up to their capacity
+    pub rt_skew: usize,
+}
+
+thread_local! {
+    static RT_SKEW: std::cell::Cell<bool> = const { std::cell::Cell::new(false) };
+}
+
+fn gen_rt(src: &mut Src) -> u8 {
+    if RT_SKEW.with(|s| s.get()) {
+        [1u8, 1, 1, 5, 1, 2, 1, 5][src.pick(8)]
+    } else {
+        1 + src.pick(5) as u8
+    }
 }
 
 impl Default for GenCfg {
@@ -517,6 +532,7 @@ impl Default for GenCfg {
             p_rejected: 0,
             write_chance: 16,
             extended_universe: false,
+            rt_skew: 0,
         }
     }
 }
@@ -572,7 +588,11 @@ pub fn gen_plan(src: &mut Src, cfg: &GenCfg) -> Plan {
             .map(|i| Res::classic((start + i * stride) % (NT * ND_CLASSIC)))
             .collect()
     };
-    gen_builder(src, cfg, &universe, 0, cfg.max_ops)
+    let skew = cfg.rt_skew > 0 && src.chance(cfg.rt_skew, 16);
+    RT_SKEW.with(|s| s.set(skew));
+    let plan = gen_builder(src, cfg, &universe, 0, cfg.max_ops);
+    RT_SKEW.with(|s| s.set(false));
+    plan
 }
 
 fn gen_access(src: &mut Src, cfg: &GenCfg, universe: &[Res]) -> (Vec<Res>, Vec<Res>) {
@@ -662,7 +682,7 @@ fn gen_builder(
             } else {
                 Ctl::Custom { n: times }
             };
-            let rt = 1 + src.pick(5) as u8;
+            let rt = gen_rt(src);
             let inner = gen_builder(src, cfg, universe, depth + 1, cfg.max_inner_ops);
             if !name.is_empty() {
                 named.push(ops.len());
@@ -689,7 +709,7 @@ fn gen_builder(
             Kind::Dyn => gen_access(src, cfg, universe),
             Kind::Static(_) => (vec![], vec![]),
         };
-        let rt = 1 + src.pick(5) as u8;
+        let rt = gen_rt(src);
         if !name.is_empty() {
             named.push(ops.len());
         }
